@@ -149,7 +149,9 @@ class C14(object):
         def sync_key(x):
             kv = _keyval(x, mod)
             if raise_on is not None and kv == raise_on and isinstance(x, int) and x < 0:
-                raise ValueError("key refuses %r" % (x,))
+                # (different elements fail with different exception types: the first one, in
+                # iteration order, is what the built-in raises)
+                raise (ValueError if x % 2 else KeyError)("key refuses %r" % (x,))
             if coarse:
                 return CoarseKey(kv)
             return kv
